@@ -20,7 +20,8 @@ ASSUMPTIONS = ['the property quantifies over programs; the solver quantifies ove
 REQUIRED_TAGS = ['compared']
 LIMITS = {'quick': {'max_paths': 20000, 'max_s': 150}, 'thorough': {'max_paths': 200000, 'max_s': 900}}
 
-HIER = ['param-override', 'bare-value', 'none-override', 'method-command', 'mixin', 'inherit-false', 'struct', 'enum-growth', 'two-level']
+HIER = ['param-override', 'bare-value', 'none-override', 'method-command', 'mixin', 'inherit-false', 'struct', 'enum-growth', 'two-level',
+        'method-struct-command', 'property-two-level', 'bare-below-param', 'mixin-merge']
 
 
 def cases(tier):
@@ -33,7 +34,7 @@ def cases(tier):
 
 def base_classes():
     """the part of the program every hierarchy shares; called once per world"""
-    from frappy.core import Module, Writable, Parameter, Command, FloatRange, IntRange, EnumType, StringType
+    from frappy.core import Module, Writable, Parameter, Command, FloatRange, IntRange, EnumType, StringType, StructOf
     from frappy.extparams import StructParam
     from frappy.mixins import HasControlledBy
 
@@ -50,6 +51,11 @@ def base_classes():
         def cmd(self, v):
             """command"""
             return v
+
+        @Command(StructOf(x=FloatRange(0, 10), n=IntRange(0, 5)), result=IntRange())
+        def cmds(self, x, n=1):
+            """struct argument with an optional member"""
+            return n
 
         def read_ctrl(self):
             return {'p': 1, 'i': 2}
@@ -150,6 +156,51 @@ def run_isolation(env, p):
         class Ctl(HasOutputModule, Writable):
             pass
         subs['Ctl'] = Ctl
+    elif h == 'mixin-merge':
+        class PartialMixin:                       # plain mixin carrying a partial override
+            pz = Parameter(max=5)
+
+        class BaseA(Base):
+            pz = Parameter('z', IntRange(0, 10), readonly=False, default=1)
+
+        class BaseB(Base):
+            pz = Parameter('z', IntRange(0, 100), readonly=False, default=2)
+
+        class MixA(PartialMixin, BaseA):
+            pass
+
+        class MixB(PartialMixin, BaseB):
+            pz = Parameter(min=n_enum - 8)
+        subs['MixA'] = MixA
+        subs['MixB'] = MixB
+    elif h == 'method-struct-command':
+        class Sub(Base):
+            def cmds(self, x, n):     # plain method, no default: both members mandatory in the subclass
+                """overridden"""
+                return n + 1
+        subs['Sub'] = Sub
+    elif h == 'property-two-level':
+        class Sub(Base):
+            group = 'lab'
+            visibility = 2
+
+        class SubSub(Sub):
+            group = 'teaching'
+            visibility = 3
+        subs['Sub'] = Sub
+        subs['SubSub'] = SubSub
+    elif h == 'bare-below-param':
+        class Sub(Base):
+            pf = Parameter(max=hi)
+
+        class SubSub(Sub):
+            pf = dflt
+
+        class Sib(Base):      # a sibling defined after the others
+            pass
+        subs['Sub'] = Sub
+        subs['SubSub'] = SubSub
+        subs['Sib'] = Sib
     w.update(subs)
     # instances: the subclass(es), a sibling base instance configured with overrides, a plain base instance
     cmax = env.real('cfg.max', 0, 100)
@@ -218,6 +269,42 @@ def run_isolation(env, p):
     if h in ('param-override', 'inherit-false', 'two-level'):
         sub = d['sub0']['accessibles']['_pf' if '_pf' in d['sub0']['accessibles'] else 'pf']['datainfo']
         env.check(M.eq(sub.get('max'), hi), K + '/override-not-applied')
+    # (7) siblings and intermediate classes keep what their own class chain says
+    def acc(name, wname):
+        return d[name]['accessibles'][wname]
+    if h == 'mixin':
+        env.check(acc('sub21', '_mx')['datainfo'].get('max') == 10, K + '/sibling-subclass-got-the-override', acc('sub21', '_mx')['datainfo'])
+        env.check(M.eq(acc('sub0', '_mx')['datainfo'].get('max'), n_enum), K + '/override-not-applied')
+    if h == 'mixin-merge':
+        a = acc('mixa0', '_pz')['datainfo']
+        b = acc('mixb1', '_pz')['datainfo']
+        env.check(a.get('min') == 0 and a.get('max') == 5, K + '/class-using-a-mixin-changed-by-a-later-class', a)
+        env.check(M.eq(b.get('min'), n_enum - 8) and b.get('max') == 5, K + '/override-not-applied', b)
+        _, again = describe(w, ['MixA'])
+        env.check(again['MixA']['accessibles']['_pz']['datainfo'].get('min') == 0, K + '/later-instance-changed-by-a-later-class')
+    if h == 'property-two-level':
+        env.check(d['sub0'].get('group') == 'lab' and d['sub0'].get('visibility') == 2, K + '/intermediate-class-rewritten-by-subclass',
+                  [d['sub0'].get('group'), d['sub0'].get('visibility')])
+        env.check(d['subsub1'].get('group') == 'teaching' and d['subsub1'].get('visibility') == 3, K + '/override-not-applied')
+        env.check('group' not in d[plain.name] and d[plain.name].get('visibility', 1) in (1, 'user'), K + '/base-class-rewritten-by-subclass')
+        _, again = describe(w, ['Sub'])
+        env.check(again['Sub'].get('group') == 'lab', K + '/later-instance-of-intermediate-class-rewritten', again['Sub'].get('group'))
+    if h == 'bare-below-param':
+        env.check(M.eq(acc('sub0', '_pf')['datainfo'].get('max'), hi), K + '/intermediate-class-changed')
+        env.check(acc('sib2', '_pf')['datainfo'].get('max') == 100, K + '/sibling-defined-later-got-the-override', acc('sib2', '_pf')['datainfo'].get('max'))
+    if h == 'method-struct-command':
+        env.check(acc(plain.name, '_cmds')['datainfo']['argument'].get('optional') == ['n'], K + '/base-command-argument-rewritten',
+                  acc(plain.name, '_cmds')['datainfo']['argument'].get('optional'))
+        env.check(acc('sub0', '_cmds')['datainfo']['argument'].get('optional') == [], K + '/override-not-applied',
+                  acc('sub0', '_cmds')['datainfo']['argument'].get('optional'))
+    # (8) run-time mutation of a command argument datatype of ONE instance
+    configured.commands['cmds'].argument.members['x'].setProperty('max', 5.0)
+    d2 = srv.secnode.get_descriptive_data('')['modules']
+    env.check(d2[plain.name]['accessibles']['_cmds']['datainfo']['argument']['members']['x'].get('max') == 10,
+              K + '/command-datatype-shared-between-instances')
+    _, late2 = describe(w, ['Base'])
+    env.check(late2['Base']['accessibles']['_cmds']['datainfo']['argument']['members']['x'].get('max') == 10,
+              K + '/command-datatype-shared-with-class')
     env.note('compared')
 
 
